@@ -1,6 +1,7 @@
 """C14 — ReprCString owns one well-formed NUL-terminated buffer.
 Case format: '14 | k b b b ..'  (one constructor call per line) k: 0 ReprCString::from(&str), 1 ReprCString::from(&[u8]),
-2 ReprCStr::from(&CStr) (input cut at its first NUL first), 3 ReprCString::from(String); b..: the input bytes (whole UTF-8 sequences and NULs).
+2 ReprCStr::from(&CStr) (input cut at its first NUL first), 3 ReprCString::from(String), 4 ReprCString::from(&[u8]) for ARBITRARY bytes (read back through the raw
+buffer only); b..: the input bytes (whole UTF-8 sequences and NULs; any bytes for kind 4).
 Output row: [1; 0; size freed for the original; size freed for the clone; clone reads back equal; length; read-back bytes..].
 Monitor: read-back == input up to first NUL; clone equal by ==, Hash and content; tracking allocator: every free has the size
 and alignment of its allocation (the scan-derived size must equal the allocated size), nothing leaked, no crash."""
@@ -43,6 +44,15 @@ def gen_cases(rng, tier):
             a = rng.choice([1, 1, 1, 2, 3, 4]) if rng.chance(19, 20) else 0
             b += ALPHA[a]
         cases.append("14 | " + " ".join(map(str, [rng.below(4)] + b)))
+    # ANY byte slice for the byte-slice constructor (kind 4: checked through the raw buffer only): Latin-1 text, lone continuation / lead bytes, cut
+    # multi-byte sequences, 0xff, with and without NULs
+    r4 = rng.fork("bytes")
+    fixed4 = [[0xFC], [0x67, 0x72, 0xFC, 0x6E], [0x61, 0xFF, 0x62, 0, 0x63], [0xC3], [0xE2, 0x82], [0xF0, 0x9F, 0x98], [0x80], [0xC3, 0, 0xA9], [0xFF, 0xFE, 0xFD], [0, 0xFF], []]
+    for b in fixed4:
+        cases.append("14 | " + " ".join(map(str, [4] + b)))
+    for _ in range(120 if tier == "quick" else 3000):
+        b = [r4.choice([0, 0x41, 0x7F, 0x80, 0xBF, 0xC0, 0xC3, 0xE2, 0xF0, 0xFF, r4.range(1, 255)]) for _ in range(r4.range(1, 24))]
+        cases.append("14 | " + " ".join(map(str, [4] + b)))
     # several strings in one case: a string with its prefixes, extensions, equal and unrelated ones (== / != / Hash are compared pairwise)
     npairs = 150 if tier == "quick" else 3000
     r2 = rng.fork("pairs")
